@@ -22,7 +22,7 @@ RULE = ("Typed graphs: exhaustive enumeration of all graphs with <=3 (quick) / <
         "neighbour graph whose twin nodes are merged into the queried graph so that edges lead out of it, on both "
         "store flavours. "
         "On each graph every first-neighbour, two-hop and shortest-path query (all start/end nodes, relations, "
-        "classes) and path-with-hops queries (all hop subsets of size<=2 on small graphs, generated ones on larger) "
+        "classes) and path-with-hops queries (all hop multisets of size<=2 on small graphs - a hop may be named twice -, generated ones on larger) "
         "plus the derived helpers are compared with an oracle computed from the edge list. Non-trivial: the graph "
         "has edges of >=2 relations and some query's answer differs from the answer with its relation/class filter "
         "removed. Distinct by hash of the case.")
@@ -89,7 +89,8 @@ def _case(draw):
             a = draw(st.integers(0, n - 1))
             z = draw(st.integers(0, n - 2))
             z = z if z < a else z + 1
-            hops = draw(st.lists(st.integers(0, n - 1), max_size=3, unique=True))
+            # (a hop may be named more than once: the list is a requirement, not a route)
+            hops = draw(st.lists(st.integers(0, n - 1), max_size=3, unique=draw(st.integers(0, 3)) > 0))
             hopq.append([a, z, hops])
     case = {"fl": draw(st.sampled_from(["shared", "shared", "disjoint"])), "cls": cls, "edges": edges,
             "decoy": decoy, "hopq": hopq}
@@ -285,7 +286,7 @@ def run_case(case):
     # ---- clause 4: path with hops
     if case.get("hopq") is None:
         hopq = [[a, z, list(h)] for a in range(n) for z in range(n) if a != z
-                for k in (0, 1, 2) for h in itertools.combinations(range(n), k)]
+                for k in (0, 1, 2) for h in itertools.combinations_with_replacement(range(n), k)]
     else:
         hopq = [q for q in case["hopq"] if q[0] != q[1] and q[0] < n and q[1] < n and all(h < n for h in q[2])]
     paths_cache = {}
